@@ -19,7 +19,8 @@ type sizes struct{ tiny, block, chunk int }
 
 func tierSizes(tier string, q, t sizes) sizes {
 	if tier == "thorough" {
-		return t
+		// per round (the thorough tier runs several rounds with different seeds, see cmdCheck)
+		return sizes{t.tiny*2/5 + 1, t.block*2/5 + 1, t.chunk*2/5 + 1}
 	}
 	return q
 }
@@ -279,6 +280,8 @@ func genC02(tier string, seed uint64) []genOut {
 	}
 	out = append(out, genAdaptiveMerge("C02", seed, na, true)...)
 	out = append(out, genCopyPath("C02", seed, na)...)
+	out = append(out, genGhostFields("C02", seed, 4*na)...)
+	out = append(out, genSparseDV("C02", seed, na, true, true)...)
 	return out
 }
 
@@ -319,6 +322,7 @@ func genC03(tier string, seed uint64) []genOut {
 	}
 	out = append(out, genAdaptiveMerge("C03", seed, na, false)...)
 	out = append(out, genCopyPath("C03", seed, na)...)
+	out = append(out, genGhostFields("C03", seed, 6*na)...)
 	return out
 }
 
@@ -570,6 +574,7 @@ func genC06(tier string, seed uint64) []genOut {
 		ncp = 60
 	}
 	out = append(out, genCopyPath("C06", seed, ncp)...)
+	out = append(out, genGhostFields("C06", seed, 2*ncp)...)
 	return out
 }
 
@@ -604,6 +609,7 @@ func genC07(tier string, seed uint64) []genOut {
 						docs[j] = Doc{}
 					}
 				}
+				fixLocs(docs) // a location may have named a field only the emptied documents carried
 			}
 			sg = cb.addBuild(docs, m, api)
 			if r.Chance(1, 4) {
@@ -644,6 +650,12 @@ func genC07(tier string, seed uint64) []genOut {
 		}
 		out = append(out, genOut{cb.c, nd > 1024 || (nd > 0 && class == "tiny"), class})
 	}
+	nsd := 2
+	if tier == "thorough" {
+		nsd = 20
+	}
+	out = append(out, genSparseDV("C07", seed, nsd, false, false)...)
+	out = append(out, genSparseDV("C07", seed+1000003, nsd, true, false)...)
 	return out
 }
 
@@ -1152,7 +1164,7 @@ func genCopyPath(prop string, seed uint64, count int) []genOut {
 			in := MergeIn{Seg: sg, Nil: r.Chance(1, 2)}
 			if !in.Nil {
 				in.Drops = []uint32{}
-				if j == 0 && r.Chance(1, 4) {
+				if j == 0 && r.Chance(1, 4) && n > 3 {
 					in.Drops = []uint32{0, 3}
 				}
 			}
@@ -1167,6 +1179,243 @@ func genCopyPath(prop string, seed uint64, count int) []genOut {
 		cb.q("docnums", itoa(final))
 		cb.q("count", itoa(final))
 		out = append(out, genOut{cb.c, true, "copypath"})
+	}
+	return out
+}
+
+// ghostFields: a zero-document segment that still LISTS fields (the output of a merge in which
+// nothing survived keeps the union of its inputs' field names) merged again together with live
+// segments whose field lists agree with each other.  The ghost's names take part in the merged
+// field numbering although it has no documents: whether the stored section may be byte-copied,
+// and under which ids, depends on it.
+func genGhostFields(prop string, seed uint64, count int) []genOut {
+	var out []genOut
+	pool := [][]byte{[]byte("!x"), []byte("a"), []byte("author"), []byte("body"), []byte("m"), []byte("title"), []byte("zz"), {0x00, 'q'}}
+	for i := 0; i < count; i++ {
+		r := NewRng(seed, prop+"-ghost", uint64(i))
+		cb := newCaseBuilder(caseID(prop+"gh", seed, i), r)
+		perm := permute(r, len(pool))
+		nl := r.Range(1, 3)
+		live := [][]byte{[]byte("_id")}
+		for _, x := range perm[:nl] {
+			live = append(live, pool[x])
+		}
+		ghost := [][]byte{[]byte("_id")}
+		for _, x := range perm[nl : nl+r.Range(1, 3)] {
+			ghost = append(ghost, pool[x])
+		}
+		if r.Chance(1, 3) {
+			ghost = append(ghost, live[1:]...) // the ghost may also share names
+		}
+		cb.u.fields = append(append([][]byte{}, live...), ghost[1:]...)
+		mkDocs := func(fields [][]byte, n int, pfx string) []Doc {
+			docs := make([]Doc, n)
+			for d := range docs {
+				id := []byte(fmt.Sprintf("%s%d", pfx, d))
+				doc := Doc{{Name: []byte("_id"), Length: 1, Store: true, Value: id, Terms: []TermOcc{{Term: id, Freq: 1}}}}
+				for _, f := range fields[1:] {
+					// every document carries every field, so the field lists of the live segments agree
+					doc = append(doc, FieldInst{Name: f, Length: 1, Store: r.Chance(3, 4), Value: append([]byte(string(f)+"="), randBytes(r, r.Intn(6))...),
+						Terms: []TermOcc{{Term: []byte("w"), Freq: 1}}})
+				}
+				docs[d] = doc
+			}
+			return docs
+		}
+		m0, api0 := blockMode(r)
+		gsrc := cb.addBuild(mkDocs(ghost, r.Range(1, 4), "g"), m0, api0)
+		var all []uint32
+		for d := 0; d < cb.n[gsrc]; d++ {
+			all = append(all, uint32(d))
+		}
+		m1, api1 := mergeMode(r)
+		g := cb.addMerge([]MergeIn{{Seg: gsrc, Drops: all}}, m1, api1, bufSize(r))
+		if r.Chance(1, 3) {
+			g = cb.addLoad(g, []string{"mem", "file"}[r.Intn(2)])
+		}
+		k := r.Range(1, 3)
+		var ins []MergeIn
+		for j := 0; j < k; j++ {
+			m, api := blockMode(r)
+			n := r.Range(1, 6)
+			if r.Chance(1, 5) {
+				n = r.Range(120, 140)
+			}
+			sg := cb.addBuild(mkDocs(live, n, fmt.Sprintf("s%d-", j)), m, api)
+			in := MergeIn{Seg: sg, Nil: r.Chance(1, 2)}
+			if !in.Nil {
+				in.Drops = []uint32{}
+				if r.Chance(1, 4) {
+					in.Drops = []uint32{0}
+				}
+			}
+			ins = append(ins, in)
+		}
+		// the ghost at any position but (mostly) not the first
+		pos := r.Range(1, len(ins))
+		if r.Chance(1, 6) {
+			pos = 0
+		}
+		gin := MergeIn{Seg: g, Nil: r.Chance(1, 2)}
+		if !gin.Nil {
+			gin.Drops = []uint32{}
+		}
+		ins = append(ins[:pos], append([]MergeIn{gin}, ins[pos:]...)...)
+		m, api := mergeMode(r)
+		final := cb.addMerge(ins, m, api, bufSize(r))
+		mseg := final
+		if r.Chance(1, 3) {
+			final = cb.addLoad(final, []string{"mem", "file"}[r.Intn(2)])
+		}
+		n := cb.n[final]
+		for d := 0; d < n && d < 150; d++ {
+			cb.q("stored", itoa(final), itoa(d), "-1")
+		}
+		cb.q("docnums", itoa(mseg))
+		cb.q("count", itoa(final))
+		cb.q("fields", itoa(final))
+		for _, f := range cb.u.fields {
+			cb.q("dict", itoa(final), hx(f), "~", "~", "any")
+			cb.q("stats", itoa(final), hx(f))
+		}
+		out = append(out, genOut{cb.c, n > 0, "ghost-fields"})
+	}
+	return out
+}
+
+// sparseDV: more than 2048 documents in which a doc-value field occurs only in a few clusters, so
+// that whole 1024-document doc-value chunks are empty between non-empty ones; built, and merged
+// with a renumbering (deletions and/or a preceding segment) that moves a cluster across a chunk
+// boundary of the output.
+func genSparseDV(prop string, seed uint64, count int, withMerge, withRebuild bool) []genOut {
+	var out []genOut
+	for i := 0; i < count; i++ {
+		r := NewRng(seed, prop+"-sparsedv", uint64(i))
+		cb := newCaseBuilder(caseID(prop+"sdv", seed, i), r)
+		tag := []byte("tag")
+		cb.u.fields = [][]byte{[]byte("_id"), tag}
+		cb.u.dvOK = map[string]bool{"tag": true}
+		cb.u.dvAll = true
+		n := []int{2100, 2600, 3200, 3300, 4200}[r.Intn(5)] + r.Intn(40)
+		// clusters: (start, length)
+		var cl [][2]int
+		starts := []int{0, 1000 + r.Intn(48), 1024 + r.Intn(30), 2040 + r.Intn(16), 2048 + r.Intn(60), 3060 + r.Intn(30), 3072 + r.Intn(40), 4090 + r.Intn(20)}
+		for _, s := range starts {
+			if s < n && r.Chance(1, 2) {
+				cl = append(cl, [2]int{s, r.Range(1, 30)})
+			}
+		}
+		if len(cl) == 0 {
+			cl = append(cl, [2]int{n - 12, 10})
+		}
+		has := make([]bool, n)
+		for _, c := range cl {
+			for d := c[0]; d < c[0]+c[1] && d < n; d++ {
+				has[d] = true
+			}
+		}
+		withID := r.Chance(1, 2)
+		docs := make([]Doc, n)
+		for d := range docs {
+			var doc Doc
+			if withID || has[d] {
+				id := []byte(fmt.Sprintf("d%d", d))
+				doc = append(doc, FieldInst{Name: []byte("_id"), Length: 1, Terms: []TermOcc{{Term: id, Freq: 1}}})
+			}
+			if has[d] {
+				doc = append(doc, FieldInst{Name: tag, Length: 1, DV: true, Terms: []TermOcc{{Term: []byte(fmt.Sprintf("b%d", d)), Freq: 1}}})
+				if r.Chance(1, 4) {
+					doc = append(doc, FieldInst{Name: tag, Length: 1, DV: true, Terms: []TermOcc{{Term: []byte("common"), Freq: 1}}})
+				}
+			}
+			docs[d] = doc
+		}
+		m, api := chunkMode(r)
+		sg := cb.addBuild(docs, m, api)
+		final := sg
+		mseg := -1
+		if withMerge {
+			var ins []MergeIn
+			if r.Chance(1, 3) {
+				// a preceding segment shifts everything
+				pn := r.Range(1, 40)
+				pre := make([]Doc, pn)
+				for d := range pre {
+					pre[d] = Doc{{Name: []byte("_id"), Length: 1, Terms: []TermOcc{{Term: []byte(fmt.Sprintf("p%d", d)), Freq: 1}}}}
+					if r.Chance(1, 2) {
+						pre[d] = append(pre[d], FieldInst{Name: tag, Length: 1, DV: true, Terms: []TermOcc{{Term: []byte("pre"), Freq: 1}}})
+					}
+				}
+				pm, papi := chunkMode(r)
+				ins = append(ins, MergeIn{Seg: cb.addBuild(pre, pm, papi), Nil: true})
+			}
+			var drops []uint32
+			switch r.Intn(3) {
+			case 0: // a few leading documents
+				for d := 0; d < r.Range(1, 30); d++ {
+					drops = append(drops, uint32(d))
+				}
+			case 1: // scattered
+				for d := 0; d < n; d++ {
+					if r.Chance(1, 200) {
+						drops = append(drops, uint32(d))
+					}
+				}
+			default: // the head of one cluster
+				c := cl[r.Intn(len(cl))]
+				for d := c[0]; d < c[0]+c[1]/2+1 && d < n; d++ {
+					drops = append(drops, uint32(d))
+				}
+			}
+			if drops == nil {
+				drops = []uint32{}
+			}
+			ins = append(ins, MergeIn{Seg: sg, Drops: drops})
+			mm, mapi := mergeMode(r)
+			final = cb.addMerge(ins, mm, mapi, bufSize(r))
+			mseg = final
+		}
+		if r.Chance(1, 4) {
+			final = cb.addLoad(final, []string{"mem", "file"}[r.Intn(2)])
+		}
+		nf := cb.n[final]
+		// every document that has a value, plus the chunk edges, in several orders
+		var want []int
+		for d, doc := range cb.docs[final] {
+			for _, f := range doc {
+				if string(f.Name) == "tag" {
+					want = append(want, d)
+					break
+				}
+			}
+		}
+		for _, e := range []int{0, 1023, 1024, 2047, 2048, 3071, 3072, nf - 1} {
+			if e >= 0 && e < nf {
+				want = append(want, e)
+			}
+		}
+		sort.Ints(want)
+		if len(want) > 400 {
+			want = want[:400]
+		}
+		cb.q("dv", itoa(final), hx(tag), intList(want))
+		rev := append([]int(nil), want...)
+		sort.Sort(sort.Reverse(sort.IntSlice(rev)))
+		cb.q("dv", itoa(final), hx(tag), intList(rev))
+		var rnd []int
+		for k := 0; k < 60; k++ {
+			rnd = append(rnd, want[r.Intn(len(want))])
+		}
+		cb.q("dv", itoa(final), hx(tag)+","+hx([]byte("_id")), intList(rnd))
+		cb.q("count", itoa(final))
+		if withMerge {
+			cb.q("docnums", itoa(mseg))
+			if withRebuild {
+				rb := cb.addBuild(cb.docs[final], m, "hook")
+				cb.same(final, rb, "rebuild")
+			}
+		}
+		out = append(out, genOut{cb.c, true, "sparse-dv"})
 	}
 	return out
 }
